@@ -740,10 +740,15 @@ func concurMain(path string) {
 			switch it.Entry {
 			case "v4":
 				if p, err := dhcpv4.FromBytes(buf); err == nil {
+					// decoding and encoding are operations like the others: datagrams are decoded side by side
+					ops[g] = append(ops[g], namedOp{"dhcpv4.FromBytes", func() { dhcpv4.FromBytes(append([]byte(nil), buf...)) }},
+						namedOp{"ToBytes", func() { p.ToBytes() }})
 					useV4(p, &bad, &steps)
 				}
 			default:
 				if d, err := dhcpv6.FromBytes(buf); err == nil {
+					ops[g] = append(ops[g], namedOp{"dhcpv6.FromBytes", func() { dhcpv6.FromBytes(append([]byte(nil), buf...)) }},
+						namedOp{"ToBytes", func() { d.ToBytes() }})
 					useV6(d, &bad, &steps)
 				}
 			}
